@@ -212,15 +212,18 @@ def branch_integral_cases():
             s = (nb - na) / (pb - pa)
             tot += s * (hi - pa) + (na - s * pa) * math.log(hi / pa)
         return tot
-    branches = {'ads': list(zip(p[:7], n[:7])), 'des': list(zip(p[7:], n[7:]))}
-    for br, pts in branches.items():
+    # a second isotherm whose loading passes through a maximum (an excess isotherm): loadings are not ordered like the pressures
+    pe, ne = [0.5, 1.0, 2.0, 4.0, 6.0, 10.0, 14.0, 18.0], [1.0, 1.8, 3.0, 4.2, 4.6, 4.8, 4.5, 4.1]
+    excess = pygaps.PointIsotherm(pressure=pe, loading=ne, branch=[0] * 8, **meta)
+    branches = {'ads': (iso, list(zip(p[:7], n[:7]))), 'des': (iso, list(zip(p[7:], n[7:]))), 'ads(loading through a maximum)': (excess, list(zip(pe, ne)))}
+    for br, (iso, pts) in branches.items():
         lo, hi = min(x for x, _ in pts), max(x for x, _ in pts)
         qs = [lo * 0.5, lo, lo + 0.3 * (hi - lo), lo + 0.55 * (hi - lo), lo + 0.8 * (hi - lo), hi]
         probs = []
         for q in qs:
             want = closed(pts, q)
             try:
-                got = float(numpy.asarray(iso.spreading_pressure_at(q, branch=br)).ravel()[0])
+                got = float(numpy.asarray(iso.spreading_pressure_at(q, branch=br[:3])).ravel()[0])
             except Exception as exc:
                 probs.append(f"p={q:.4g}: {type(exc).__name__}: {exc}"[:120])
                 continue
